@@ -1353,6 +1353,132 @@ def stream_jac_block(ctx, model):
         ok = ok and _cmp_vec(ctx, "jac_block.jacobian.adj", case, G.flat_blocks(J.adj(W)), G.from_cv(gop["vjp"]), jac_block_oracle)
 
 
+def _gen_optree(rng, n, m, cplx, depth):
+    """random operator expression with input size n, output size m: recipe + numpy-free description"""
+    def leaf(a, b):
+        F = G.gen_nlop(rng, a, cplx)
+        F["m"] = b
+        z = lambda: G.enc(G.dy(rng, (b, a), cplx, bits=2, scale=1.0))  # noqa: E731
+        F.update(A=G.enc(G.dy(rng, (b, a), cplx, bits=2, scale=1.0)), B=z() if (cplx and rng.random() < 0.5) else G.enc(np.zeros((b, a))),
+                 C=z() if rng.random() < 0.6 else G.enc(np.zeros((b, a))), c=G.enc(G.dy(rng, (b,), cplx, bits=2, scale=1.0)))
+        return {"k": "leaf", "n": a, "m": b, "F": F}
+
+    if depth <= 0:
+        return leaf(n, m)
+    r = rng.random()
+    if r < 0.35:
+        mid = int(rng.integers(1, 4))
+        return {"k": "comp", "mid": mid, "F": _gen_optree(rng, mid, m, cplx, depth - 1), "G": _gen_optree(rng, n, mid, cplx, depth - 1)}
+    if r < 0.55:
+        return {"k": "add", "F": _gen_optree(rng, n, m, cplx, depth - 1), "G": _gen_optree(rng, n, m, cplx, depth - 1)}
+    if r < 0.7:
+        return {"k": "sub", "F": _gen_optree(rng, n, m, cplx, depth - 1), "G": _gen_optree(rng, n, m, cplx, depth - 1)}
+    if r < 0.9:
+        a = complex(float(common.dyadic(rng, (), bits=1, scale=2.0)) or 0.5, float(common.dyadic(rng, (), bits=1, scale=2.0)) if cplx else 0.0)
+        return {"k": "smul", "a": [a.real, a.imag], "side": "l" if rng.random() < 0.5 else "r", "F": _gen_optree(rng, n, m, cplx, depth - 1)}
+    return {"k": "neg", "F": _gen_optree(rng, n, m, cplx, depth - 1)}
+
+
+def _build_optree(t, cplx):
+    """recipe -> scico Operator, built with the operator algebra itself (`F(G)`, `+`, `-`, `*`, unary `-`)"""
+    k = t["k"]
+    if k == "leaf":
+        return G.build_nlop(t["F"], t["n"], cplx)
+    if k == "comp":
+        return _build_optree(t["F"], cplx)(_build_optree(t["G"], cplx))
+    if k == "add":
+        return _build_optree(t["F"], cplx) + _build_optree(t["G"], cplx)
+    if k == "sub":
+        return _build_optree(t["F"], cplx) - _build_optree(t["G"], cplx)
+    if k == "smul":
+        a = complex(*t["a"]) if cplx else t["a"][0]
+        F = _build_optree(t["F"], cplx)
+        return a * F if t["side"] == "l" else F * a
+    return -_build_optree(t["F"], cplx)
+
+
+def _optree_model(t):
+    k = t["k"]
+    if k == "leaf":
+        return {"k": "leaf", "F": G.nlop_model(t["F"], t["n"])}
+    if k == "comp":
+        return {"k": "comp", "mid": t["mid"], "F": _optree_model(t["F"]), "G": _optree_model(t["G"])}
+    if k in ("add", "sub"):
+        return {"k": k, "F": _optree_model(t["F"]), "G": _optree_model(t["G"])}
+    if k == "smul":
+        return {"k": "smul", "re": f2b(t["a"][0]), "im": f2b(t["a"][1]), "F": _optree_model(t["F"])}
+    return {"k": "neg", "F": _optree_model(t["F"])}
+
+
+def _optree_kinds(t, acc=None):
+    acc = [] if acc is None else acc
+    acc.append(t["k"])
+    for key in ("F", "G"):
+        if key in t and isinstance(t[key], dict) and "k" in t[key]:
+            _optree_kinds(t[key], acc)
+    return acc
+
+
+def optree_oracle(case):
+    """jvp of the composed operator = finite difference; Re<w, J v> = Re<Gmap w, v> for vjp and linop.jacobian"""
+    import scico.numpy as snp
+    from scico import linop
+
+    common.setup_scico()
+    cplx, n, m = case["cplx"], case["n"], case["m"]
+    dt = np.complex128 if cplx else np.float64
+    T = _build_optree(case["tree"], cplx)
+    u, v, w = (G.dec(case[k], None, cplx) for k in ("u", "v", "w"))
+    U, V, W = (snp.array(np.asarray(a, dtype=dt)) for a in (u, v, w))
+    Fu, Jv = T.jvp(U, V)
+    h = 2.0**-12
+    fd = (np.asarray(T(U + h * V)) - np.asarray(T(U - h * V))) / (2 * h)
+    if not np.allclose(np.asarray(Jv), fd, rtol=1e-4, atol=1e-4 * (1 + np.max(np.abs(fd)))):
+        return {"u": G.enc(u), "v": G.enc(v), "jvp": G.enc(np.asarray(Jv)), "finite_difference": G.enc(fd)}
+    lhs = float(np.real(np.sum(np.conj(np.asarray(W)) * np.asarray(Jv))))
+    for name, gw in (("vjp(w)", T.vjp(U, conjugate=True)[1](W)), ("jacobian.adj(w)", linop.jacobian(T, U).adj(W))):
+        rhs = float(np.real(np.sum(np.conj(np.asarray(gw)) * np.asarray(V))))
+        if abs(lhs - rhs) > 1e-8 * (1 + abs(lhs)):
+            return {"u": G.enc(u), "v": G.enc(v), "w": G.enc(w), "Re<w,Jv>": lhs, f"Re<{name},v>": rhs}
+    return None
+
+
+def stream_optree(ctx, model):
+    """operators built with the operator algebra (`F(G)`, `F+G`, `F-G`, `a*F`, `F*a`, `-F`; theorem C07_operator_tree):
+    value, jvp, vjp (both flags), linop.jacobian eval/adj of the composed Operator vs the model's chain/sum rules"""
+    import scico.numpy as snp
+    from scico import linop
+
+    rng = ctx.rng
+    for _ in range(ctx.n(16, 160)):
+        cplx = bool(rng.random() < 0.6)
+        dt = np.complex128 if cplx else np.float64
+        n, m = int(rng.integers(1, 4)), int(rng.integers(1, 4))
+        t = _gen_optree(rng, n, m, cplx, int(rng.integers(1, ctx.n(3, 4))))
+        u, v, w = G.dy(rng, (n,), cplx, bits=2, scale=1.0), G.dy(rng, (n,), cplx, bits=2, scale=1.0), G.dy(rng, (m,), cplx, bits=2, scale=1.0)
+        conjugate = bool(rng.random() < 0.6)
+        case = {"tree": t, "n": n, "m": m, "cplx": cplx, "u": G.enc(u), "v": G.enc(v), "w": G.enc(w), "conjugate": conjugate}
+        T = _build_optree(t, cplx)
+        got = model.call("optree", n=n, m=m, T=_optree_model(t), u=G.cv(u), v=G.cv(v), w=G.cv(w))
+        ks = _optree_kinds(t)
+        ctx.case({"tag": "optree", "kinds": ks, "cplx": cplx, "conjugate": conjugate}, ("optree", tuple(ks), cplx, n, m, conjugate))
+        for kk in set(ks):
+            ctx.count(f"optree:kind={kk}")
+        U, V, W = (snp.array(np.asarray(a if cplx else a.real, dtype=dt)) for a in (u, v, w))
+        Fu, Jv = T.jvp(U, V)
+        big = float(np.max(np.abs(G.from_cv(got["eval"])))) if m else 0.0
+        if big > 1e6:
+            ctx.count("optree:discarded-large")
+            continue
+        ok = _cmp_vec(ctx, "optree.value", case, T(U), G.from_cv(got["eval"]), optree_oracle)
+        ok = ok and _cmp_vec(ctx, "optree.jvp.value", case, Fu, G.from_cv(got["eval"]), optree_oracle)
+        ok = ok and _cmp_vec(ctx, "optree.jvp", case, Jv, G.from_cv(got["jvp"]), optree_oracle)
+        ok = ok and _cmp_vec(ctx, "optree.vjp", case, T.vjp(U, conjugate=conjugate)[1](W), G.from_cv(got["vjp" if conjugate else "vjp_noconj"]), optree_oracle)
+        J = linop.jacobian(T, U)
+        ok = ok and _cmp_vec(ctx, "optree.jacobian.eval", case, J(V), G.from_cv(got["jvp"]), optree_oracle)
+        ok = ok and _cmp_vec(ctx, "optree.jacobian.adj", case, J.adj(W), G.from_cv(got["vjp"]), optree_oracle)
+
+
 def stream_jac_mixed(ctx, model):
     """operators whose input and output dtypes differ in kind: real -> complex (a real image and
     complex measurements) and complex -> real"""
@@ -2538,7 +2664,7 @@ def correspond(ctx, model):
     common.setup_scico()
     warnings.filterwarnings("ignore", message="Casting complex values to real")
     for stream in (run_corpus, stream_boundary, stream_l21, stream_tv, stream_setdist, stream_setdist_convex, stream_nuclear, stream_linop_loss, stream_kinks, stream_defaults, stream_fn, stream_blocks, stream_single, stream_real_arg,
-                   stream_div_reject, stream_jac, stream_jac_block, stream_jac_mixed, stream_function, stream_hess, stream_heap, stream_heap_exhaustive, stream_autograd_api, stream_api_table, stream_linadj2):
+                   stream_div_reject, stream_jac, stream_optree, stream_jac_block, stream_jac_mixed, stream_function, stream_hess, stream_heap, stream_heap_exhaustive, stream_autograd_api, stream_api_table, stream_linadj2):
         _guard(ctx, model, stream)
 
 
@@ -2795,6 +2921,8 @@ def replay(ctx, model, case):
         r = linop_loss_oracle(c)
     elif op.startswith("linadj"):
         r = linadj_oracle(c)
+    elif op.startswith("optree"):
+        r = optree_oracle(c)
     elif op.startswith("jac_block"):
         r = jac_block_oracle(c)
     elif op.startswith("jac"):
